@@ -136,6 +136,10 @@ EntryStatus(R, O, e, S) ==
          IF b = "nodes" /\ e.t = NoT
          THEN St(R.nodes \subseteq ToSet(e.v) /\ ToSet(e.v) \subseteq R.nodes \cup R.maybe /\ NoDup(e.v))
          ELSE St(ToSet(e.v) = ExpNodes(R, O, e, S) /\ (b = "all_neighbors" \/ NoDup(e.v)))
+    [] e.k = "attrs" /\ b = "get_node_attributes" ->
+         \* dn.get_node_attributes(G, name): exactly the nodes that carry the attribute, with its value
+         St(/\ NoDup(e.v)
+            /\ ToSet(e.v) = { <<n, AttrOf(R, n)>> : n \in { m \in R.nodes \cup R.maybe : AttrOf(R, m) # 0 } })
     [] e.k = "attrs" -> St(/\ NoDup(e.v)
                            /\ \A x \in ToSet(e.v) : x[2] = AttrOf(R, x[1])
                            /\ IF e.t = NoT THEN /\ R.nodes \subseteq { x[1] : x \in ToSet(e.v) }
